@@ -44,6 +44,7 @@ fn main() {
         "c11" => vharness::c11::run(seed, n, thorough, &corpus, &dir),
         "c12" => vharness::c12::run(seed, n, thorough, &corpus, &dir),
         "c17" => vharness::c17::run(seed, n, thorough, &corpus, &dir),
+        "rx" => vharness::rx::run(seed, n, thorough, &corpus, &dir),
         "c08" => vharness::c08::run(seed, n, thorough, &corpus, &dir),
         "c08w" => vharness::c08::run_wake(seed, n, &dir),
         "typed" => vharness::typed::run(seed, n, thorough, &corpus, &dir),
